@@ -25,6 +25,8 @@ PROPS = {
                 explanation="impl FromStr for Rational proved against an independent literal grammar (spec/lit_spec.rs): Ok(q) => q is exactly the number the byte string spells; every literal of the grammar with an exponent <= u32::MAX is accepted; unbounded loops closed by invariants; NUMBER/PERCENTAGE arms of eval() and the lexer's choice of extent are bounded-checked"),
     "C06": dict(units=["PARSER", "GRAMMAR"], standin=True, level="exploration",
                 explanation="bounded enumeration of operator sequences x parenthesisations x blank layouts against an independent precedence-climbing evaluator; proved components: op() priority table, skip bookkeeping of Parser::{count_skip,skip,eat}, operation()/value()/call_arguments() skip contracts"),
+    "C08": dict(units=["DISPLAYCORE"], standin=True, level="exploration",
+                explanation="bounded read-back contract over a grid of values x limits x exponent limits; proved core: the emit digit step is exact long division (digit <= 9, remainder stays below the denominator) and digits() is the decimal magnitude"),
 }
 
 COMMON_TRUST = [
